@@ -138,7 +138,8 @@ CHECKS = {
         technique="Lean 4: codec bijection (omega/decide), per-step and fold-invariant theorems on the index maintenance; differential correspondence of full views",
         ref='§4 C16'),
     'C17': dict(
-        text=("C17_validation (over the WHOLE option table — ephemeral not given/True/False x directory x auth none/basic/stealth x deprecated stealth_auth x key x "
+        text=("PARTIAL — the theorems are about the option table and the step sequence of listen(); sockets are a recording listening port in the "
+              "correspondence run. C17_validation (over the WHOLE option table — ephemeral not given/True/False x directory x auth none/basic/stealth x deprecated stealth_auth x key x "
               "single-hop — a combination is refused iff it is one of the invalid ones, and refusing has no effect: nothing is started), C17_settled (what a valid "
               "combination settles), C17_success (listener on the loopback interface only; Tor is asked to forward the public port to exactly the bound port; the "
               "result comes after the service creation; the address reports the public port), C17_stop (stopListening closes the listener), C17_no_leak (whatever "
@@ -239,7 +240,8 @@ CHECKS = {
         technique="Lean 4: invariants (ownership of list objects, declared shapes) by induction over all operation sequences + view-tracking theorem over all event sequences; differential correspondence with a three-way oracle",
         ref='§4 C11'),
     'C19': dict(
-        text=("C19_once (for EVERY order of the process's output, its exit, the timeout, the control connection's steps and callers' requests, no "
+        text=("PARTIAL — the theorems are about the process-protocol state machine; no real process, signal or reactor shutdown is involved "
+              "(a fake process transport records signalProcess/loseConnection). C19_once (for EVERY order of the process's output, its exit, the timeout, the control connection's steps and callers' requests, no "
               "when_connected() result — hence no launch result — is delivered twice; invariant by induction), C19_success_needs_100 (a success is preceded by "
               "a BOOTSTRAP PROGRESS=100 event on a connection whose STATUS_CLIENT subscription exists), C19_subscription_begins_with_bootstrap (a connection becomes subscribed only by the acknowledgement of its own protocol bootstrap), "
               "C19_no_success_after_failure (once timeout or exit has failed the launch, no later input — not even a late 100 % — nor a later caller sees "
